@@ -145,9 +145,160 @@ pub fn roundtrip_f64(bits: u64) -> Result<(), &'static str> {
     }
 }
 
+/// x * 10^k by a case split on k (every branch multiplies by a constant: cheap for the model checker)
+macro_rules! mul_pow10 {
+    ($name:ident, $U:ty, $($k:literal => $p:literal),*) => {
+        pub fn $name(x: $U, k: usize) -> $U { match k { $($k => x * $p,)* _ => 0 } }
+    };
+}
+mul_pow10!(mul_pow10_u64, u64, 0 => 1, 1 => 10, 2 => 100, 3 => 1_000, 4 => 10_000, 5 => 100_000, 6 => 1_000_000, 7 => 10_000_000, 8 => 100_000_000);
+mul_pow10!(mul_pow10_u128, u128, 0 => 1, 1 => 10, 2 => 100, 3 => 1_000, 4 => 10_000, 5 => 100_000, 6 => 1_000_000, 7 => 10_000_000, 8 => 100_000_000,
+    9 => 1_000_000_000, 10 => 10_000_000_000, 11 => 100_000_000_000, 12 => 1_000_000_000_000, 13 => 10_000_000_000_000,
+    14 => 100_000_000_000_000, 15 => 1_000_000_000_000_000, 16 => 10_000_000_000_000_000);
+
+/// C02 as an arithmetic contract on the binade [1, 2): `out` = "1.d1..dk" (1 <= k <= KMAX) written for the float m / 2^P
+/// (m in [2^P, 2^(P+1)), P = 23 for f32 / 52 for f64) must
+///   (a) lie in the float's rounding interval, i.e. parse back to m (round-trip; interval closed iff m is even),
+///   (b) have no trailing zero (except "1.0"),
+///   (c) be shortest: no decimal with k-1 fraction digits lies in the rounding interval,
+///   (d) be within half a unit of its last digit of the float (closest among the k-digit decimals).
+/// With D = the k+1 digits read as an integer: value = D / 10^k; float = m / 2^P; half an ulp = 1 / 2^(P+1).
+macro_rules! shortest_unit_binade {
+    ($name:ident, $U:ty, $mul:ident, $p:expr, $kmax:expr) => {
+        pub fn $name(out: &[u8], m: $U) -> Result<(), &'static str> {
+            const P: u32 = $p;
+            let n = out.len();
+            if n < 3 || n > $kmax + 2 { return Err("length of the written string"); }
+            if out[0] != b'1' || out[1] != b'.' { return Err("positional form 1.ddd in [1, 2)"); }
+            let mut d: $U = 1;
+            let mut i = 2;
+            while i < n {
+                let c = out[i];
+                if c < b'0' || c > b'9' { return Err("fraction digits are decimal digits"); }
+                d = d * 10 + (c - b'0') as $U;
+                i += 1;
+            }
+            let k = n - 2;
+            let one: $U = 1;
+            let pw = $mul(1, k);
+            let a = d << (P + 1);
+            let b = $mul(2 * m, k);
+            let diff = if a >= b { a - b } else { b - a };
+            // the lower neighbour of a power of two is only half as far away
+            let lower_half = if m == (one << P) { pw / 2 } else { pw };
+            let bound = if a >= b { pw } else { lower_half };
+            if !(diff < bound || (diff == bound && m % 2 == 0)) { return Err("the written decimal lies in the rounding interval (parses back to the identical float)"); }
+            if k > 1 && out[n - 1] == b'0' { return Err("no trailing zero"); }
+            if diff > (one << P) { return Err("closest: within half a unit in the last written digit"); }
+            if k >= 2 || out[2] != b'0' {
+                // shortest: the rounding interval, scaled by 10^(k-1) and written over 2^(P+2), contains no integer
+                let lo_num = if m == (one << P) { $mul(4 * m - 1, k - 1) } else { $mul((2 * m - 1) * 2, k - 1) };
+                let hi_num = $mul((2 * m + 1) * 2, k - 1);
+                let sh = P + 2;
+                let mask = (one << sh) - 1;
+                let even = m % 2 == 0;
+                let lo_c = if lo_num & mask == 0 { if even { lo_num >> sh } else { (lo_num >> sh) + 1 } } else { (lo_num >> sh) + 1 };
+                let hi_f = if hi_num & mask == 0 && !even { (hi_num >> sh) - 1 } else { hi_num >> sh };
+                if lo_c <= hi_f { return Err("shortest: no decimal with fewer digits lies in the rounding interval"); }
+            }
+            Ok(())
+        }
+    };
+}
+shortest_unit_binade!(shortest_unit_binade_f32, u64, mul_pow10_u64, 23, 8);
+shortest_unit_binade!(shortest_unit_binade_f64, u128, mul_pow10_u128, 52, 16);
+
+pub fn shortest_f32_unit(bits: u32) -> Result<(), &'static str> {
+    use lexical_write_float::ToLexical;
+    let v = f32::from_bits(bits);
+    let mut buf = [0u8; 64];
+    let s = v.to_lexical(&mut buf);
+    shortest_unit_binade_f32(s, ((bits & 0x7F_FFFF) | 0x80_0000) as u64)
+}
+pub fn shortest_f64_unit(bits: u64) -> Result<(), &'static str> {
+    use lexical_write_float::ToLexical;
+    let v = f64::from_bits(bits);
+    let mut buf = [0u8; 64];
+    let s = v.to_lexical(&mut buf);
+    shortest_unit_binade_f64(s, ((bits & 0xF_FFFF_FFFF_FFFF) | 0x10_0000_0000_0000) as u128)
+}
+
 pub mod rt {
     use super::*;
     crate::harnesses! {
+        /// f32 in [1, 2) whose mantissa field is below 2^12 (long outputs, 8-9 digits): the written string is in the rounding interval (round-trips), has no
+        /// trailing zero, is shortest and is the closest decimal of its length - checked by exact integer arithmetic.
+        /// @prop C02 C08
+        /// @feat default
+        /// @bound f32 values 1 + m / 2^23, m < 4096
+        /// @fn lexical-write-float::algorithm::to_decimal[f32]
+        /// @fn lexical-write-float::algorithm::compute_nearest_normal[f32]
+        /// @fn lexical-write-float::algorithm::write_float_positive_exponent
+        /// @fn lexical-write-float::algorithm::write_digits_u32 -> lexical-write-integer::jeaiii
+        /// @timeout 1500
+        #[cfg_attr(kani, kani::unwind(12))]
+        fn shortest_f32_unit_low12() {
+            let m: u32 = any();
+            assume(m < (1 << 12));
+            let r = shortest_f32_unit((127 << 23) | m);
+            vcheck!(r.is_ok(), "f32 in [1,2): written decimal is in the rounding interval, shortest and closest");
+        }
+
+        /// f32 in [1, 2) whose mantissa field is a multiple of 2^11 (short outputs, trailing-zero removal): the written string is in the rounding interval (round-trips), has no
+        /// trailing zero, is shortest and is the closest decimal of its length - checked by exact integer arithmetic.
+        /// @prop C02 C08
+        /// @feat default
+        /// @bound f32 values 1 + h / 2^12, h < 4096
+        /// @fn lexical-write-float::algorithm::to_decimal[f32]
+        /// @fn lexical-write-float::algorithm::compute_nearest_normal[f32]
+        /// @fn lexical-write-float::algorithm::write_float_positive_exponent
+        /// @fn lexical-write-float::algorithm::write_digits_u32 -> lexical-write-integer::jeaiii
+        /// @timeout 1500
+        #[cfg_attr(kani, kani::unwind(12))]
+        fn shortest_f32_unit_high12() {
+            let m: u32 = any();
+            assume(m < (1 << 23) && m & 0x7FF == 0);
+            let r = shortest_f32_unit((127 << 23) | m);
+            vcheck!(r.is_ok(), "f32 in [1,2): written decimal is in the rounding interval, shortest and closest");
+        }
+
+        /// every f32 in [1, 2) (all 2^23 mantissas): the written string is in the rounding interval (round-trips), has no
+        /// trailing zero, is shortest and is the closest decimal of its length - checked by exact integer arithmetic.
+        /// @prop C02 C08
+        /// @tier thorough
+        /// @feat default
+        /// @bound f32 values in [1, 2)
+        /// @fn lexical-write-float::algorithm::to_decimal[f32]
+        /// @fn lexical-write-float::algorithm::compute_nearest_normal[f32]
+        /// @fn lexical-write-float::algorithm::write_float_positive_exponent
+        /// @fn lexical-write-float::algorithm::write_digits_u32 -> lexical-write-integer::jeaiii
+        /// @timeout 5400
+        #[cfg_attr(kani, kani::unwind(12))]
+        fn shortest_f32_unit_binade() {
+            let m: u32 = any();
+            assume(m < (1 << 23));
+            let r = shortest_f32_unit((127 << 23) | m);
+            vcheck!(r.is_ok(), "f32 in [1,2): written decimal is in the rounding interval, shortest and closest");
+        }
+
+        /// every f64 in [1, 2) (all 2^52 mantissas): same contract as shortest_f32_unit_binade.
+        /// @prop C02 C08
+        /// @tier thorough
+        /// @mem 12
+        /// @feat default
+        /// @bound f64 values in [1, 2)
+        /// @fn lexical-write-float::algorithm::to_decimal[f64]
+        /// @fn lexical-write-float::algorithm::compute_nearest_normal[f64]
+        /// @fn lexical-write-float::algorithm::write_float_positive_exponent
+        /// @timeout 3600
+        #[cfg_attr(kani, kani::unwind(20))]
+        fn shortest_f64_unit_binade() {
+            let m: u64 = any();
+            assume(m < (1 << 52));
+            let r = shortest_f64_unit((1023u64 << 52) | m);
+            vcheck!(r.is_ok(), "f64 in [1,2): written decimal is in the rounding interval, shortest and closest");
+        }
+
         /// f32 powers of two with biased exponent in 1..=15 (symbolic), both signs: write -> parse round trip.
         /// @prop C02 C08
         /// @tier thorough
